@@ -10,6 +10,12 @@ CHECKS = {
  "C01": ("E1-enum", "bounded exhaustive enumeration of (configuration x type-in-position x boundary value) on the real code against an independent reference model",
    "Every tuple of the bounded universe (4 configurations, ~4 000 run-time built types in 6 positions, boundary values with <=2 non-default fields per struct level) is executed on the real Marshal/Unmarshal, each on a fresh Plenc instance; the decoded value must equal ref.Expect. Exhaustive inside the stated bounds, nothing sampled.",
    "Trusted: the reference model (ref.Expect/ref.Accept, written from README + Appendix A of DESIGN.md), reflect, the Go runtime. Outside the bound: deeper types, more simultaneous deviations (DESIGN §10).", "§7 C01"),
+ "C02": ("E1-enum", "bounded exhaustive enumeration; real Marshal bytes matched against an independent reference encoding tree; reference bytes re-ordered exhaustively and decoded by the real Unmarshal",
+   "Same universe as C01. Encode side: byte-for-byte agreement (map entries in any order) with a reference encoder written from the documentation and bound to the 19 golden files on every run. Decode side: every permutation of the outermost struct's fields (<=4 fields) and a fully reversed rendering must decode to the same value as the declared order.",
+   "Trusted: ref.EncTop (independent encoder), the golden files. Value-before-key inside a map entry is not demanded (README).", "§7 C02"),
+ "C05": ("E1-enum", "bounded exhaustive enumeration of codecs x values x tags checking the Size/Append/Read/framing laws on the real Codec objects, plus a schema-directed framing walker",
+   "For every type of the universe (whole type and base type under its tag option) and every boundary value, the codec obtained from CodecForType is driven directly: Size==len(Append) for nil/1/2/5-byte tags, tagged form == tag+[len]+untagged body, Read(body) consumes len(body), and every Marshal output is walked by a value-blind, schema-directed framing checker to its exact end. Exported time codecs (BQTimestampCodec, TimeCompatCodec) over the time universe.",
+   "Trusted: the framing walker ref.Walk, the wire-class model ref.ClassOf. JSON-any codecs are exercised by C16.", "§7 C05"),
 }
 NOT_YET = "check not built yet (in progress); see DESIGN.md §7 for the planned model-checking design"
 
